@@ -114,6 +114,16 @@ func (s *StrategyChoiceModule) set(interest *spec.Interest, pitToken []byte, inF
 		return
 	}
 
+	// None of the strategies takes parameters, and the forwarding threads look a strategy up
+	// by its exact name (prefix + strategy + version), so nothing may follow the version
+	if len(params.Strategy.Name) > len(s.strategyPrefix)+2 {
+		core.LogWarn(s, "Strategy=", params.Strategy, " does not accept parameters in ControlParameters for Interest=",
+			interest.Name())
+		response = makeControlResponse(409, "Strategy does not accept parameters", nil)
+		s.manager.sendResponse(response, interest, pitToken, inFace)
+		return
+	}
+
 	// Add/verify version information for strategy
 	strategyVersion := availableVersions[0]
 	for _, version := range availableVersions {
